@@ -580,6 +580,7 @@ main(int argc, char *argv[])
 			usage("cannot specify -o with multiple input files without linking");
 		}
 	}
+	i = 0;
 	arrayforeach (&inputs, input) {
 		/* ignore the input if it doesn't participate in the last stage */
 		if (!(input->stages & 1 << last))
@@ -587,11 +588,13 @@ main(int argc, char *argv[])
 		/* only run up through the last stage */
 		input->stages &= (1 << last + 1) - 1;
 		buildobj(input, output);
+		/* keep only the inputs that are built, so that ignored ones are neither linked nor removed */
+		((struct input *)inputs.val)[i++] = *input;
 	}
 	if (last == LINK) {
 		if (!output)
 			output = "a.out";
-		buildexe(inputs.val, inputs.len / sizeof(*input), output);
+		buildexe(inputs.val, i, output);
 	}
 	return 0;
 }
